@@ -104,6 +104,9 @@ def execute(acc, case):
                             sub_state["calls"] += 1
                             s.sleep(0.0005)
                         sub_state["done"] = True
+                    if case.get("park") is not None:
+                        # the application thread is descheduled at its n-th source line inside the library until the connection has ended
+                        s.parks.append({"task": "consumer", "nth": case["park"], "release": lambda: sc.state() == "Closed", "timeout": 2.0})     # 2 virtual s at most: it may be holding the association lock
                     sc.sched.spawn("consumer", submitter)      # named like the consumer so that it is not counted as a node task
                     s.run_until(lambda: sub_state["calls"] > 3, 1.0, "submitting")
                 if point == "closing":
@@ -129,11 +132,16 @@ def execute(acc, case):
             node_tasks = lambda: [t for t in s.live_tasks() if t.name != "consumer"]
             ended = s.run_until(lambda: sc.state() == "Closed" and not node_tasks(), 60.0, "end-of-life")
             acc.counters["executions"] += 1
+            if s.parked_at:
+                acc.counters["application_thread_parked_across_the_end"] += 1
+                acc.extra.setdefault("parked_at", {})
+                acc.extra["parked_at"][s.parked_at[0][1]] = acc.extra["parked_at"].get(s.parked_at[0][1], 0) + 1
             open_socks = [repr(x) for x in sc.net.open_sockets()]
             registered = [repr(x) for x in sc.net.registered() if not x.harness_side]
             dead_owner = [l.name for l in s.locks if l.owner is not None and l.owner.done]
             wit.update({"state": sc.state(), "live_tasks": [t.name + ":" + str(t.why) for t in node_tasks()], "open_sockets": open_socks,
                         "registered": registered, "locks_owned_by_finished_tasks": dead_owner, "deaths": s.deaths,
+                        "lock_owners": [(l.name, l.owner.name if l.owner is not None else None) for l in s.locks if l.owner is not None],
                         "virtual_seconds": round(s.now - t_cause, 2), "schedule": s.schedule_hash(), "choices": s.choices[:2000]})
             tag = "%s@%s" % (cause, point)
             if s.deaths:
@@ -231,6 +239,22 @@ def main(tier, seed):
                                   "strategy": "rr" if i == 0 else "rw", "p": rng.choice([0.02, 0.1, 0.3]),
                                   "transport": "SCTP" if (i % 3 == 2 and cause != "refused") else "TCP",
                                   "dpr_cause": (0, 1, 2)[i % 3] if cause == "peer-dpr" else 0})
+    # application threads inside send_message()/get_message() while the connection ends: the windows are single source lines,
+    # so these two points get many more line-level schedules than the rest
+    for point in ("submitter-active", "consumer-blocked"):
+        for cause in ("local-close", "peer-dpr", "peer-disconnect", "peer-reset"):
+            for role in ("client", "server"):
+                for i in range(12 if q else 300):
+                    cases.append({"seed": seed * 7919 + len(cases), "cause": cause, "point": point, "role": role, "strategy": "rw",
+                                  "p": rng.choice([0.3, 0.5, 0.5]), "transport": "TCP", "dpr_cause": i % 3 if cause == "peer-dpr" else 0,
+                                  "park": None})
+    # ... and the same application thread descheduled once at each of the first source lines it executes inside the library
+    # (one send_message() call is about 46 lines), for every cause: a systematic sweep instead of hoping for the random walk
+    for cause in ("local-close", "peer-dpr", "peer-disconnect", "peer-reset"):
+        for nth in range(0, 60 if q else 140):
+            for role in (("client", "server")[nth % 2],) if q else ("client", "server"):
+                cases.append({"seed": seed * 7919 + len(cases), "cause": cause, "point": "submitter-active", "role": role, "strategy": "rw",
+                              "p": 0.02, "transport": "TCP", "dpr_cause": nth % 3 if cause == "peer-dpr" else 0, "park": nth})
     rng.shuffle(cases)
     nb = 16 if q else 64
     batches = [{"cases": cases[i::nb]} for i in range(nb)]
